@@ -233,8 +233,8 @@ fn sections(cfg: &Cfg) -> Vec<(Sect, u64)> {
     vec![
         (Sect::Singles, nn * var * if q { 6 } else { cls }),
         (Sect::Ma, nn * 2 * 4 * if q { 4 } else { cls }),
-        (Sect::Bins, if q { 400 } else { 20_000 }),
-        (Sect::Chains, if q { 4_000 } else { 300_000 }),
+        (Sect::Bins, if q { 400 } else { 200_000 }),
+        (Sect::Chains, if q { 4_000 } else { 2_000_000 }),
         (Sect::Long, nn * var),
         (Sect::Lines, all_unary(3).len() as u64 * if q { 160 } else { 1200 }),
     ]
